@@ -877,6 +877,11 @@ class KeywordSearches:
                 data, parent, parentref, translated_path, ancestry,
                 relay_segment)
         else:
+            # Climb on copies:  the caller's translated_path and ancestry are
+            # shared with the NodeCoords it has already built (a wildcard or
+            # traversal which evaluates this segment as its filter).
+            translated_path = YAMLPath(translated_path)
+            ancestry = list(ancestry)
             for _ in range(parent_levels):
                 translated_path.pop()
                 (data, _) = ancestry.pop()
